@@ -3,17 +3,21 @@ import os, json
 from . import common as C
 
 
-def cq_resp(r):
+def cq_resp(r, timeout=None):
     if r["kind"] == "err":
         return "(ConnErr %d)" % r["lat"]
+    if r["kind"] == "stall":
+        # headers in time, body never complete: the request ends with an error when its own deadline (= the wait timeout) expires
+        return "(ConnErr %d)" % (timeout or 1000)
     return "(Http %s %s %d)" % (C.cq_z(r["status"]), C.cq_bytes(r.get("body") or []), r["lat"])
 
 
 def case_to_coq(c):
     fam, o = c["fam"], c["obs"]
     if fam == "wait":
+        t = c["timeout_ms"]
         return "wait_case %d %s %s %s %d %s %s" % (
-            c["id"], C.cq_list([cq_resp(r) for r in c.get("script") or []]), cq_resp(c["tail"]),
+            c["id"], C.cq_list([cq_resp(r, t) for r in c.get("script") or []]), cq_resp(c["tail"], t),
             C.cq_z(c.get("expected", 0)), c["timeout_ms"], C.cq_bool(o["result"] == "ok"), C.cq_z(o["idx"]))
     if fam == "reload":
         steps = C.cq_list(["(%s, %s, %s)" % (C.cq_bool(s["shell_ok"]), C.cq_list([cq_resp(r) for r in s.get("script") or []]),
@@ -57,9 +61,16 @@ def judge(run, cases, res):
             run.failing({"kind": "harness-case-error", "fam": c["fam"]}, [c],
                         "the harness could not run case %d (%s) on the implementation: %s" % (c["id"], c["fam"], c["obs"]["error"][:300]),
                         theorem="correspondence harness c13", found_input=False)
+    for c in cases:
+        if c["fam"] == "wait" and isinstance(c.get("obs"), dict) and c["obs"].get("result") == "hang":
+            run.failing({"kind": "spec", "fam": "wait", "class": c["class"], "how": "hang"}, [c],
+                        "C13: the wait neither acknowledged nor failed the reload within three times the configured timeout (%d ms) -- it is stuck on an answer that never "
+                        "completes (family wait, class %s, case %d)" % (c["timeout_ms"], c["class"], c["id"]), theorem="Verify.Cases.spec_ok (timeout clause)")
     for row in res:
         cid, agree, spec, robust, tag = row
         c = byid[cid]
+        if isinstance(c.get("obs"), dict) and c["obs"].get("result") == "hang":
+            continue
         canon = {k: c.get(k) for k in ("fam", "expected", "timeout_ms", "script", "tail", "reloads", "version", "check", "stream", "open_tracing")}
         if c["fam"] == "wait" and not robust:
             skipped += 1          # outcome depends on sub-30ms timing: not compared
